@@ -110,6 +110,9 @@ def run_k(ctx, kres):
     kres["notes"].append(f"K03c: {nst} orders of opens / closes / logins / logouts on two tokens (holes and foreign sessions in the session table; logins that outlive their sessions or not), "
                          "each followed by the state of every session, of a fresh session on each token, and the login rules")
     viols += k_suite(ctx, kres, "K03c-session-table(exhaustive)", [Trace("session-table%d" % i, t) for i, t in enumerate(st)], in_projection, sig_of=sig_of, shrink_budget=60, rank=lambda m: m["line"])
+    # --- K03d context-specific logins: every order of user / SO / context-specific (right, wrong, SO PIN) logins and logouts around a pending always-authenticate operation ---
+    rt, nrt = gen2.c07_reauth_scope(ctx.seed, 3, sample=400 if ctx.quick else None)
+    viols += k_suite(ctx, kres, "K03d-context-logins", [Trace("reauth", rt)], in_projection, sig_of=sig_of, shrink_budget=60)
     # --- K03b random histories ---
     n, ops = (30, 40) if ctx.quick else (400, 120)
     hs = [Trace("h%d" % i, gen.spine_history(ctx.seed * 7919 + i, ops, probe_every=False).replace("fini\n", "") + "".join(f"sinfo {k}\n" for k in range(1, 30)) + "fini\n") for i in range(n)]
